@@ -201,6 +201,118 @@ def r17(chk, P):
     chk.require(k_ >= 1, 'ov_read_filter: data return not reached by the analysis')
 
 
+
+def r17_10(chk, P):
+    chk.rule('R17.10', 'clipping is the identity on values inside the range: a clamp helper of vorbisfile.c (floating parameters only, every '
+             'return hands back one of its parameters) returns a bound parameter b only under conditions that put the value parameter '
+             'at or beyond b -- the if-guards on the way to `return b` (statement tree; `fabs(x) <= c` read as -c <= x <= c), expanded to '
+             'a disjunction of linear conjunctions over the parameters, entail x >= b or entail x <= b in every disjunct (exact linear '
+             'domain; the conditions are homogeneous, so the integer tightening of the domain is harmless).  A clamp that sends values '
+             'just inside the range to the bound (a range taken as symmetric although lo = -hi-1, a comparison against the wrong bound) '
+             'still delivers only in-range words, so no range rule sees it; only samples next to full scale come out wrong')
+    import linrel
+    n = 0
+    for F in P.functions():
+        if not F.file.endswith('vorbisfile.c') or F.entry is None or len(F.params) < 2:
+            continue
+        if not all(p_['t'].strip() in ('float', 'double') for p_ in F.params):
+            continue
+        rets = list(F.nodes('ret'))
+        pids = {p_['id']: p_['name'] for p_ in F.params}
+        tgt = {}
+        for r in rets:
+            c = F.ex[r].get('c')
+            rn = F.ex[F.strip_casts(c[0])] if c else None
+            while rn is not None and rn['k'] == 'un' and rn['op'] in ('+',):
+                rn = F.ex[F.strip_casts(rn['c'][0])]
+            if rn is None or rn['k'] != 'ref' or rn['decl'].get('id') not in pids:
+                tgt = None
+                break
+            tgt[r] = rn['decl']['id']
+        if not tgt or len(set(tgt.values())) < 2:
+            continue
+        # the value parameter: the one every comparison of the function mentions
+        cnt = {}
+        for e in F.nodes('bin'):
+            if F.ex[e]['op'] in ('<', '<=', '>', '>='):
+                for q in F.walk(e):
+                    qn = F.ex[q]
+                    if qn['k'] == 'ref' and qn['decl'].get('id') in pids:
+                        cnt[qn['decl']['id']] = cnt.get(qn['decl']['id'], 0) + 1
+        if not cnt:
+            continue
+        x = max(cnt, key=lambda k_: cnt[k_])
+
+        def lin(e):
+            e = F.strip_casts(e)
+            nd = F.ex[e]
+            if nd['k'] == 'ref' and nd['decl'].get('id') in pids:
+                return [({f'p{nd["decl"]["id"]}': 1}, 1)]           # list of (linear form, sign) alternatives: plain
+            if nd['k'] == 'un' and nd['op'] == '-':
+                a = lin(nd['c'][0])
+                return None if a is None or len(a) != 1 else [({k_: -v for k_, v in a[0][0].items()}, 1)]
+            if nd['k'] == 'call' and nd['callee'].get('d') in ('fabs', 'fabsf') and nd.get('c'):
+                a = lin(nd['c'][0])
+                if a is None or len(a) != 1:
+                    return None
+                return [(a[0][0], 1), ({k_: -v for k_, v in a[0][0].items()}, 1)]   # |t|: both t and -t
+            return None
+
+        def dnf(e, pol):
+            e = F.strip_casts(e)
+            nd = F.ex[e]
+            if nd['k'] == 'un' and nd['op'] == '!':
+                return dnf(nd['c'][0], not pol)
+            if nd['k'] == 'bin' and nd['op'] in ('&&', '||'):
+                a, b = dnf(nd['c'][0], pol), dnf(nd['c'][1], pol)
+                if (nd['op'] == '&&') == pol:
+                    return [p_ + q_ for p_ in a for q_ in b]
+                return a + b
+            if nd['k'] == 'bin' and nd['op'] in ('<', '<=', '>', '>='):
+                op = nd['op']
+                if not pol:
+                    op = {'<': '>=', '<=': '>', '>': '<=', '>=': '<'}[op]
+                a, b = lin(nd['c'][0]), lin(nd['c'][1])
+                if a is None or b is None or (len(a) > 1 and len(b) > 1):
+                    return [[]]
+                # orient as  L <= R  (strictness dropped: weaker premise)
+                if op in ('>', '>='):
+                    a, b = b, a
+                # now a <= b ; |t| on the left: both alternatives hold (conjunction); |t| on the right: one of them (disjunction)
+                def row(l, r):
+                    d = dict(l)
+                    for k_, v in r.items():
+                        d[k_] = d.get(k_, 0) - v
+                    return (d, 0)
+                if len(a) > 1:
+                    return [[row(alt[0], b[0][0]) for alt in a]]
+                if len(b) > 1:
+                    return [[row(a[0][0], alt[0])] for alt in b]
+                return [[row(a[0][0], b[0][0])]]
+            return [[]]
+        for r, b in sorted(tgt.items(), key=lambda kv: F.loc(kv[0])):
+            if b == x:
+                continue
+            disj = [[]]
+            for c, pol in common.guard_conditions(F, r):
+                disj = [p_ + q_ for p_ in disj for q_ in dnf(c, pol)][:64]
+            ok = True
+            for conj in disj:
+                po = linrel.Poly()
+                for d, c0 in conj:
+                    po.add(d, c0)
+                ge = po.entails_ge({f'p{x}': 1, f'p{b}': -1}, 0)
+                le = po.entails({f'p{x}': 1, f'p{b}': -1}, 0)
+                if not (ge or le):
+                    ok = False
+            n += 1
+            k_ = len([q for q in tgt if tgt[q] == b and F.loc(q) < F.loc(r)])
+            chk.ob('R17.10', F.name, f'bound-returned-only-beyond-it:{pids[b]}#{k_}', ok, F.where(r),
+                   f'`{F.s(r)}` is guarded by {[("" if p_ else "!") + F.s(c) for c, p_ in common.guard_conditions(F, r)]}: ' +
+                   (f'{pids[x]} is at or beyond {pids[b]} in every case' if ok else
+                    f'the guards do not place {pids[x]} at or beyond {pids[b]}: values inside the range are sent to the bound'))
+    return n
+
 def run(chk, P):
     r17(chk, P)
     chk.floor('R17.1', 6)
@@ -208,6 +320,8 @@ def run(chk, P):
     chk.floor('R17.3', 2)
     chk.floor('R17.7', 1)
     chk.floor('R17.8', 3)
+    r17_10(chk, P)
+    chk.floor('R17.10', 2)
     chk.rule('R17.9', 'the channel count that sizes a frame is the decoded link\'s on a streaming handle too: vf->vi is indexed by '
              'vf->current_link only where the handle is known seekable (same obligations as R09.11); a streaming handle has a '
              'single info while current_link counts the links played')
